@@ -1,6 +1,113 @@
+/-
+C18 — Permissive parsing repairs known writer bugs and never harms a consistent file.
+
+Only property theorems and non-vacuity examples live here; helper lemmas are in
+`Proofs/Header.lean`.  `pi` is any pixel-info detection (`PixelInfo::from_header`); layout
+lengths are those of `Layout.lean` (C02).
+-/
+import DdsModel.Proofs.Header
 import DdsModel.HeaderTables
 import DdsModel.Drv.C18
 namespace Dds.C18
 open Dds
-theorem placeholder : True := trivial
+
+/-- Without a file length permissive parsing changes nothing that strict parsing accepts:
+for every raw header, strict `ok h` implies permissive `ok h`. -/
+theorem strict_implies_permissive (pi : Header → Option PixelInfo) (raw : RawHeader) (h : Header)
+    (hs : Header.fromRaw pi ParseOptions.strict raw = .ok h) :
+    Header.fromRaw pi (ParseOptions.newPermissive none) raw = .ok h := by
+  rw [Header.fromRaw_strict] at hs
+  rw [Header.fromRaw_perm, Header.fromRawNoFix_strict_perm hs]
+  rfl
+
+/-- With a file length: if the strictly parsed header's layout length equals
+`file_len - (magic + header bytes)`, permissive parsing returns the same header.
+(If the pixel info of the header is unknown, permissive parsing leaves it alone as well.) -/
+theorem consistent_untouched (pi : Header → Option PixelInfo) (raw : RawHeader) (h : Header)
+    (fileLen : Nat) (hs : Header.fromRaw pi ParseOptions.strict raw = .ok h)
+    (hcons : ∀ px, pi h = some px → h.layoutLen px = some (fileLen - (4 + h.byteLen))) :
+    Header.fromRaw pi (ParseOptions.newPermissive (some fileLen)) raw = .ok h := by
+  rw [Header.fromRaw_strict] at hs
+  rw [Header.fromRaw_perm, Header.fromRawNoFix_strict_perm hs]
+  simp only [Except.ok.injEq]
+  unfold Header.fixBasedOnFileLen
+  simp only
+  cases hsub : ckSub fileLen (4 + h.byteLen) with
+  | none => rfl
+  | some expected =>
+    simp only
+    cases hpx : pi h with
+    | none => rfl
+    | some px =>
+      simp only
+      have he : expected = fileLen - (4 + h.byteLen) := by
+        unfold ckSub at hsub
+        split at hsub
+        · cases hsub; rfl
+        · cases hsub
+      have ht : Header.testLen px expected h = true := by
+        simp [Header.testLen, hcons px hpx, he]
+      rw [Header.fixCore_of_test ht]
+
+def exHeader : Header := .dx10 (Dx10Header.new .cubeMap 16 16 0 71)
+example : Header.fromRaw pixelInfoOf ParseOptions.strict (exHeader.toRaw pixelInfoOf) = .ok exHeader ∧
+    pixelInfoOf exHeader = some (.block 8 4 4) ∧
+    exHeader.layoutLen (.block 8 4 4) = some (916 - (4 + exHeader.byteLen)) :=
+  ⟨by rw [Header.fromRaw_strict]; exact Header.fromRawNoFix_toRaw _ _ _ (by decide), by decide, by decide⟩
+
+/-- The file-length repair touches nothing but the mip count and the array size, and whenever
+the permissive result differs from the pre-repair header in mip count or array size (other
+than 0 -> 1), its layout length equals the file's data length `file_len - (magic + header)`. -/
+theorem repair_exact (pi : Header → Option PixelInfo) (raw : RawHeader) (fileLen : Nat)
+    (h0 h1 : Header) (hp0 : Header.fromRaw pi (ParseOptions.newPermissive none) raw = .ok h0)
+    (hp1 : Header.fromRaw pi (ParseOptions.newPermissive (some fileLen)) raw = .ok h1) :
+    h1.core = h0.core ∧
+    ((h1.mipmapCount ≠ h0.mipmapCount ∨
+        (h1.arraySize ≠ h0.arraySize ∧ ¬ (h0.arraySize = 0 ∧ h1.arraySize = 1))) →
+      ∃ px, pi h0 = some px ∧ 4 + h1.byteLen ≤ fileLen ∧
+        h1.layoutLen px = some (fileLen - (4 + h1.byteLen))) := by
+  rw [Header.fromRaw_perm] at hp0 hp1
+  cases hn : Header.fromRawNoFix true raw with
+  | error e => rw [hn] at hp0; cases hp0
+  | ok a =>
+    rw [hn] at hp0 hp1
+    simp only [Except.ok.injEq, Header.fixBasedOnFileLen_none] at hp0 hp1
+    subst hp0
+    subst hp1
+    refine ⟨Header.fixBasedOnFileLen_core pi _ a, ?_⟩
+    have hbl : (a.fixBasedOnFileLen pi (some fileLen)).1.byteLen = a.byteLen :=
+      Header.byteLen_of_core (Header.fixBasedOnFileLen_core pi _ a)
+    rw [hbl]
+    unfold Header.fixBasedOnFileLen
+    simp only
+    cases hsub : ckSub fileLen (4 + a.byteLen) with
+    | none => simp
+    | some expected =>
+      simp only
+      cases hpx : pi a with
+      | none => simp
+      | some px =>
+        simp only
+        have he : expected = fileLen - (4 + a.byteLen) ∧ 4 + a.byteLen ≤ fileLen := by
+          unfold ckSub at hsub
+          split at hsub
+          · cases hsub; exact ⟨rfl, by assumption⟩
+          · cases hsub
+        intro hchg
+        cases hres : (a.fixCore (Header.testLen px expected) expected).2 with
+        | true =>
+          have := Header.fixCore_true hres
+          refine ⟨px, rfl, he.2, ?_⟩
+          simpa [Header.testLen, he.1] using this
+        | false =>
+          exfalso
+          have hf := Header.fixCore_false hres
+          rw [hf] at hchg
+          cases hz : a.arrayZero? expected with
+          | none => rw [hz] at hchg; simp at hchg
+          | some a1 =>
+            obtain ⟨x, rfl, hx0, _, rfl⟩ := Header.arrayZero?_some hz
+            rw [hz] at hchg
+            simp [Header.mipmapCount, Header.arraySize, hx0] at hchg
+
 end Dds.C18
